@@ -6,8 +6,7 @@ Local Open Scope N_scope.
 
 Definition op_pre (g : geom) (o : op) : Prop :=
   match o with
-  | GetRange a n => aligned (g_start g) a
-  | SetRange a n bits => aligned (g_start g) a /\ n mod 8 = 0 /\ n <= N.of_nat (length bits)
+  | SetRange a n bits => n <= N.of_nat (length bits)      (* the caller's buffer holds the n bits it asks to store *)
   | _ => True
   end.
 
@@ -116,11 +115,11 @@ Section Sim.
       destruct (f_scan m true _ _); (split; [split; auto|reflexivity]).
     - (* GetRange *)
       split; [split; auto|]. cbn [snd b_get FSet].
-      rewrite (ok_get _ _ _ OK t _ _ n I P), (f_bits_ext _ _ E). reflexivity.
+      rewrite (ok_get _ _ _ OK t _ _ n I), (f_bits_ext _ _ E). reflexivity.
     - (* SetRange *)
-      destruct P as (P1 & P2 & P3).
+      cbn [op_pre] in P.
       assert (L : N.of_nat (length (firstn (N.to_nat n) bits)) = n) by (rewrite firstn_length; lia).
-      destruct (ok_set _ _ _ OK t (g_start g) a (firstn (N.to_nat n) bits) I P1) as (A1 & A3); [rewrite L; auto|].
+      destruct (ok_set _ _ _ OK t (g_start g) a (firstn (N.to_nat n) bits) I) as (A1 & A3).
       split; [split; cbn [fst snd b_set FSet]; auto|reflexivity].
       split; auto. intros j. rewrite A3, E. reflexivity.
     - (* Clear *)
